@@ -50,6 +50,8 @@ type boundedCfg struct {
 var propCfgs = map[string]propCfg{
 	"C08": {Safety: true},
 	"C15": {Safety: true},
+	"C16": {Bounded: &boundedCfg{File: "C16_assembler_test.go", PkgDir: "asm", Test: "TestBoundedC16",
+		What: "grammar part of C16 (lexer and parser are built by reflection, outside reach): assembly programs generated from the grammar are assembled with the real Parse, disassembled with the real ParseHandler.ToString and compared with what was written (one instruction per line, same opcode and arguments, menu batches expand to MOUT/MNEXT/MPREV .. HALT .. INCMP); numSize (floating point) is compared with the byte count of its argument"}},
 	"C02": {Bounded: &boundedCfg{File: "C02_pagination_test.go", PkgDir: "render", Test: "TestBoundedC02",
 		What: "content part of C02: pages shown by the real Page.Render, walked from index 0, compared with the rows (complete, in order, once; static text and ordinary menu on every page; next/previous offered exactly on inner pages; error past the end; no panic)"}},
 	"C13": {Safety: true},
@@ -357,7 +359,12 @@ func cmdCheck(args []string) int {
 			undecided = append(undecided, "bounded:"+cfg.Bounded.Test+": "+err.Error())
 		} else {
 			boundedEv = map[string]interface{}{"level": "bounded", "what": cfg.Bounded.What, "harness": "bounded/" + cfg.Bounded.File,
-				"bound": res["bound"], "cases": res["cases"], "row_lists": res["row_lists"], "skipped_not_fitting": res["skipped_not_fitting"], "classes": res["classes"]}
+				"bound": res["bound"], "cases": res["cases"], "classes": res["classes"]}
+			for _, k := range []string{"row_lists", "skipped_not_fitting", "numsize_arguments_checked"} {
+				if v, ok := res[k]; ok {
+					boundedEv[k] = v
+				}
+			}
 			examples, _ := res["examples"].([]interface{})
 			classes, _ := res["classes"].(map[string]interface{})
 			var cnames []string
